@@ -47,11 +47,42 @@ class Exhausted(Exception):
     pass
 
 
+class PathEnd(Exception):
+    """The current path ends here without reaching the function's exit (after the inductive step of a loop)."""
+
+
+class SymEnum:
+    """enumerate(<array of symbolic extent>)"""
+
+    def __init__(self, arr, start=0):
+        self.arr = arr
+        self.start = start
+
+
 # ----------------------------------------------------------------------------------------------
 # path context
 
+def _conjuncts(t):
+    if z3.is_and(t):
+        out = []
+        for ch in t.children():
+            out += _conjuncts(ch)
+        return out
+    return [t]
+
+
+def _has_quantifier(t, seen=None):
+    seen = set() if seen is None else seen
+    if t.get_id() in seen:
+        return False
+    seen.add(t.get_id())
+    if z3.is_quantifier(t):
+        return True
+    return any(_has_quantifier(ch, seen) for ch in t.children())
+
+
 class Ctx:
-    def __init__(self, decisions=(), timeout_ms=5000, max_branches=400):
+    def __init__(self, decisions=(), timeout_ms=5000, max_branches=400, qf_probe=False):
         self.decisions = list(decisions)
         self.trace = []
         self.pc = []
@@ -64,6 +95,7 @@ class Ctx:
         self.notes = []
         self.fresh_counter = {}
         self.probe_unknown = 0
+        self.qf_probe = qf_probe
 
     def fresh_name(self, base):
         """names of bound / auxiliary variables: the '%' prefix keeps them apart from the contracts' input symbols
@@ -77,7 +109,14 @@ class Ctx:
         if z3.is_true(term):
             return
         self.pc.append(term)
-        self.solver.add(term)
+        if self.qf_probe:
+            # the probe solver (feasibility of branch arms, term simplification) only sees the quantifier-free conjuncts: it
+            # over-approximates feasibility, so no path is lost; obligations are always solved under the full path condition
+            for cj in _conjuncts(term):
+                if not _has_quantifier(cj):
+                    self.solver.add(cj)
+        else:
+            self.solver.add(term)
         if label:
             self.assumed.append((label, term))
 
@@ -89,6 +128,17 @@ class Ctx:
         if r == z3.unknown:
             self.probe_unknown += 1
         return r != z3.unsat
+
+    def entails(self, term):
+        """the path condition implies term (a timeout counts as 'not known'): only used to simplify terms"""
+        term = z3.simplify(term)
+        if z3.is_true(term):
+            return True
+        self.solver.push()
+        self.solver.add(z3.Not(term))
+        r = self.solver.check()
+        self.solver.pop()
+        return r == z3.unsat
 
     def branch(self, cond, where=None):
         """cond: z3 Bool.  Returns the Python bool taken on this run."""
@@ -116,6 +166,17 @@ class Ctx:
                 raise PathInfeasible()
         self.trace.append(take)
         self.add(cond if take else z3.Not(cond))
+        return take
+
+    def fork(self):
+        """unconditional two-way choice point (used to split a loop into its inductive step and its continuation)"""
+        i = len(self.trace)
+        if i < len(self.decisions):
+            take = self.decisions[i]
+        else:
+            take = True
+            self.pending.append(self.trace + [False])
+        self.trace.append(take)
         return take
 
     def assume(self, cond, label="assume"):
@@ -348,6 +409,7 @@ class Interp:
         self.stack = []
         self.executed = set()
         self.ctxvars = []
+        self.loop_specs = {}
         self.extent_cap = None
         self.stub_log = set()
         self.warn_log = []
@@ -599,10 +661,8 @@ class Interp:
 
     def s_For(self, s, env):
         it = self.eval(s.iter, env)
-        if self.loop_hook is not None:
-            r = self.loop_hook(self, s, env, it)
-            if r is not NotImplemented:
-                return
+        if isinstance(it, (TArr, SymEnum)):
+            return self.cut_loop(s, env, it)
         broke = False
         for item in self.iterate(it):
             self.assign(s.target, item, env)
@@ -615,6 +675,90 @@ class Interp:
                 continue
         if not broke:
             self.exec_block(s.orelse, env)
+
+    def loop_ordinal(self, fn, node):
+        k = 0
+        for n in sorted((x for x in _walk_fn(fn.node) if isinstance(x, (ast.For, ast.While))), key=lambda x: (x.lineno, x.col_offset)):
+            if n is node:
+                return k
+            k += 1
+        return -1
+
+    def cut_loop(self, s, env, it):
+        """`for <target> in <array of symbolic extent>`: cut at the sidecar invariant (DESIGN 2.2):
+        inv-entry obligation; havoc of everything the body assigns; one path proves the inductive step and ends,
+        the other continues after the loop from a havocked state that satisfies the invariant at the exit."""
+        fn = env.fn
+        key = (fn.key if fn is not None else "?", self.loop_ordinal(fn, s) if fn is not None else -1)
+        spec = self.loop_specs.get(key)
+        if spec is None:
+            raise Untranslatable(f"loop of symbolic length at {key[0]} line {s.lineno} needs an invariant")
+        if s.orelse:
+            raise Untranslatable("for/else on a loop of symbolic length")
+        arr = it.arr if isinstance(it, SymEnum) else it
+        n = term_of(raw(arr.shape[0]), "int")
+        ctx = self.ctx
+
+        def bind(k):
+            row = self.np.getitem(arr, Sym(k, "int")) if arr.ndim > 1 else arr.get((Sym(k, "int"),))
+            item = (mk(k + it.start, "int"), row) if isinstance(it, SymEnum) else row
+            self.assign(s.target, item, env)
+
+        class L:   # view of the locals for the invariant
+            pass
+
+        def view(k):
+            v = L()
+            v.__dict__.update(env.vars)
+            v.k = Sym(k, "int") if not isinstance(k, int) else k
+            v.n = mk(n, "int")
+            return v
+
+        def inv_term(k):
+            r = spec["invariant"](view(k))
+            return term_of(r, "bool") if isinstance(r, Sym) else z3.BoolVal(bool(r))
+
+        # 1. the invariant holds on entry
+        ctx.oblige(f"{key[0]}#loop{key[1]}", "inv-entry", inv_term(0), {})
+        # 2. havoc
+        for name, kind in spec.get("havoc", {}).items():
+            cur = env.vars.get(name)
+            if kind.startswith("like:"):       # a number of the element kind of another local array
+                kind = {"f": "float", "i": "int", "u": "int", "b": "bool"}[env.vars[kind[5:]].dtype.kind]
+            if kind == "array":
+                if not isinstance(cur, TArr):
+                    raise Untranslatable(f"havoc of {name}: not an array of symbolic extent")
+                sort = cur.term.sort()
+                env.vars[name] = TArr(z3.Const(ctx.fresh_name("havoc_" + name), sort), cur.shape, cur.dtype)
+            elif kind in ("int", "float", "bool"):
+                zs = {"int": z3.Int, "float": z3.Real, "bool": z3.Bool}[kind]
+                env.vars[name] = Sym(zs(ctx.fresh_name("havoc_" + name)), kind, spec.get("np", {}).get(name, True))
+            else:
+                raise Untranslatable(f"havoc kind {kind}")
+        if ctx.fork():
+            # 3a. inductive step for an arbitrary iteration k
+            k = z3.Int(ctx.fresh_name("iter"))
+            ctx.assume(z3.And(k >= 0, k < n), "loop index")
+            ctx.assume(inv_term(k), "invariant (hypothesis)")
+            bind(k)
+            try:
+                self.exec_block(s.body, env)
+            except (_Break, _Continue):
+                raise Untranslatable("break/continue in a loop cut at an invariant")
+            for h in spec.get("hints", lambda v: [])(view(k)):
+                if isinstance(h, tuple):     # (lemma, args): its hypotheses are an obligation here, its conclusion is assumed
+                    lem, largs = h
+                    ctx.oblige(f"{key[0]}#loop{key[1]}:{lem.name}", "lemma-pre", lem.hyps(*largs), {})
+                    ctx.assume(lem.stmt(*largs, lem.upto(*largs)), "lemma instance " + lem.name)
+                else:
+                    ctx.assume(term_of(h, "bool") if isinstance(h, Sym) else h, "lemma instance")
+            ctx.oblige(f"{key[0]}#loop{key[1]}", "inv-step", inv_term(k + 1), {})
+            raise PathEnd()
+        # 3b. after the loop: the invariant at k = n
+        ctx.assume(inv_term(n), "invariant (at exit)")
+        if isinstance(it, SymEnum) or True:
+            # the loop targets keep their last values; they are not used after the loops we cut (checked by the contract author)
+            pass
 
     def s_While(self, s, env):
         n = 0
